@@ -735,3 +735,93 @@ def accumulator_loop_exits(fn):
                 verdicts[((b, t), a)] = known_true
         out.append((in_loop_accs, exits, verdicts, loop))
     return out
+
+
+_NEG = {'==': '!=', '!=': '==', '<': '>=', '>=': '<', '>': '<=', '<=': '>'}
+_FLIP = {'==': '==', '!=': '!=', '<': '>', '>': '<', '<=': '>=', '>=': '<='}
+
+
+def _split_top(c):
+    """`(A op B)` -> (A, op, B) splitting at the top-level comparison operator, else None."""
+    if not (c.startswith('(') and c.endswith(')')):
+        return None
+    body = c[1:-1]
+    depth = 0
+    i = 0
+    while i < len(body):
+        ch = body[i]
+        if ch in '([{':
+            depth += 1
+        elif ch in ')]}':
+            depth -= 1
+        elif depth == 0 and ch == ' ':
+            for op in ('==', '!=', '<=', '>=', '<', '>'):
+                if body.startswith(' ' + op + ' ', i):
+                    return body[:i], op, body[i + len(op) + 2:]
+        i += 1
+    return None
+
+
+def normalize_cond(c, holds=True):
+    """Canonical text of a branch condition that is known to evaluate to `holds`: comparison operators are negated for holds == False, the
+    constant / shorter operand is put on the right, `ne(a, b)` / `eq(a, b)` are written as comparisons, a bare boolean term is prefixed with
+    `!` when it is false.  `if x != 0 { return } ; <site>` and `if x == 0 { <site> }` both give `(x == 0)` for <site>."""
+    m = re.match(r'^(ne|eq)\((.*)\)$', c)
+    if m:
+        inner = m.group(2)
+        depth = 0
+        for i, ch in enumerate(inner):
+            if ch in '([{':
+                depth += 1
+            elif ch in ')]}':
+                depth -= 1
+            elif ch == ',' and depth == 0:
+                c = '(%s %s %s)' % (inner[:i].strip(), '!=' if m.group(1) == 'ne' else '==', inner[i + 1:].strip())
+                break
+    sp = _split_top(c)
+    if sp:
+        a, op, b = sp
+        if not holds:
+            op = _NEG[op]
+        isconst = lambda t: bool(re.match(r'^-?\d+$|^const:|^[A-Z_0-9:]+$', t)) or re.match(r'^[\w:]+::[A-Z][A-Z_0-9]*(\.0)?$', t) is not None
+        if (isconst(a) and not isconst(b)):
+            a, b, op = b, a, _FLIP[op]
+        return '(%s %s %s)' % (a, op, b)
+    if c.startswith('!') and not holds:
+        return c[1:]
+    if re.match(r'^Not\((.*)\)$', c):
+        inner = re.match(r'^Not\((.*)\)$', c).group(1)
+        return inner if not holds else '!' + inner
+    return c if holds else '!' + c
+
+
+def path_conds(fn, site, F=None):
+    """Normalised conditions (see normalize_cond) that hold on EVERY path to `site`, nearest first.  Boolean switches contribute the
+    condition with its polarity; switches on an enum discriminant contribute `<scrutinee> is <Variant>` when F is given."""
+    out = []
+    for (b, tgt) in guard_switches(fn, site):
+        t = fn.blocks[b]['t']
+        c = core.sym_nstr(core.sym(fn, t[1]))
+        arms = bool_switch_arms(fn, b)
+        si = fn.switch_info(b) or {}
+        if si.get('labels') and F is not None:
+            labs = [lab for lab, tg in arm_blocks(fn, b, lambda l: True, F) if tg == tgt]
+            out.append('%s is %s' % (c, '|'.join(sorted(labs)) or '?'))
+            continue
+        if arms is None or c.startswith('discr('):
+            out.append(c)
+            continue
+        tt, ff = arms
+        if tt == ff:
+            continue
+        out.append(normalize_cond(c, holds=(tgt == tt)))
+    return out
+
+
+def oriented(rc, rhs_pat):
+    """Orient a refusal condition (lhs, REL, rhs, site) so that the operand matching rhs_pat is on the right (flipping the relation)."""
+    if rc is None:
+        return None
+    if not re.search(rhs_pat, rc[2]) and re.search(rhs_pat, rc[0]):
+        return (rc[2], _FLIP[rc[1]], rc[0], rc[3])
+    return rc
